@@ -196,9 +196,12 @@ type genBatch struct {
 	MaxHWM      map[string]int      `json:"max_hwm"`
 	Samples     []json.RawMessage   `json:"samples"`
 	Abandoned   int                 `json:"abandoned"`
+	Concurrent  int                 `json:"concurrent_execs"`
+	Nested      int                 `json:"nested_execs"`
 }
 
 type genAgg struct {
+	Concurrent, Nested         int
 	Programs, Dropped          int
 	Evaluations                int
 	Calls, Args, Emits, States int64
@@ -287,6 +290,8 @@ func runGen(c *ctx, co *corpus, tags string, per int, race bool) *genAgg {
 			return
 		}
 		agg.Evaluations += br.Ran
+		agg.Concurrent += br.Concurrent
+		agg.Nested += br.Nested
 		agg.Calls += br.Calls
 		agg.Args += br.ArgEvents
 		agg.Emits += br.EmitEvents
@@ -397,20 +402,22 @@ func (a *genAgg) coverage(rule string) map[string]interface{} {
 	}
 	sort.Strings(feats)
 	return map[string]interface{}{
-		"evaluations":           a.Evaluations,
-		"distinct_nontrivial":   min(len(a.Distinct), a.NonTrivial),
-		"rule":                  rule,
-		"samples":               a.Samples,
-		"programs_executed":     a.Programs,
-		"programs_dropped":      a.Dropped,
-		"dropped_reasons":       a.DroppedWhy,
-		"stub_calls_logged":     a.Calls,
-		"argument_events":       a.Args,
-		"emitter_events":        a.Emits,
-		"scheduler_states":      a.States,
-		"executions_by_family":  a.ByTag,
-		"program_features":      feats,
-		"max_inflight_by_limit": a.MaxHWM,
-		"child_crashes":         a.Crashes,
+		"evaluations":         a.Evaluations,
+		"distinct_nontrivial": min(len(a.Distinct), a.NonTrivial),
+		"rule":                rule,
+		"samples":             a.Samples,
+		"programs_executed":   a.Programs,
+		"programs_dropped":    a.Dropped,
+		"simultaneous_executions_of_one_directive": a.Concurrent,
+		"nested_directive_executions":              a.Nested,
+		"dropped_reasons":                          a.DroppedWhy,
+		"stub_calls_logged":                        a.Calls,
+		"argument_events":                          a.Args,
+		"emitter_events":                           a.Emits,
+		"scheduler_states":                         a.States,
+		"executions_by_family":                     a.ByTag,
+		"program_features":                         feats,
+		"max_inflight_by_limit":                    a.MaxHWM,
+		"child_crashes":                            a.Crashes,
 	}
 }
